@@ -35,6 +35,7 @@ def run_store_scenario(sc):
         tr.install()
         for k, tf in enumerate(sc["segs"]):
             tr.run_segment(tf, k + 1)
+            ss.TDS.load_plotter()          # as a notebook user does after every run; it must show the run so far
         tr.ev.append(_file_checks(ss, tr, sc, d))
         res = dict(sid=sc.get("sid"), pflow=bool(pf), events=tr.ev, timers=tr.timers,
                    targets=["|".join(t) for t in tr.targets])
@@ -143,6 +144,37 @@ def _file_checks(ss, tr, sc, d):
         except Exception as ex:   # loader failing on files the library wrote is an observation
             out["plotter_ok"] = False
             out["loader_error"] = "%s: %s" % (type(ex).__name__, str(ex)[:200])
+    # --- the in-memory plotter (TDS.load_plotter): the whole run so far, and queries by variable ---------------------
+    out["memplot_ok"] = True
+    if len(rows) and not tds.config.limit_store:
+        try:
+            tds.load_plotter()
+            pm = tds.plotter
+            data = np.asarray(pm._data)
+            okm = data.shape[0] == len(rows) and _arr_eq(data[:, 0], exp_t) and _arr_eq(data[:, :exp.shape[1]], exp)
+            X = np.array([np.asarray(r[1]) for r in rows])
+            Y = np.array([np.asarray(r[2]) for r in rows])
+            # a query by variable returns the stored values of exactly that variable's devices, under their names
+            for var, M, sel in ((ss.Bus.v, Y, yidx), (ss.Bus.a, Y, yidx)) + (((ss.GENROU.omega, X, xidx),) if ss.GENROU.n else ()) \
+                    + (((ss.GENROU.vd, Y, yidx),) if ss.GENROU.n else ()):
+                want = [int(a_) for a_ in var.a if int(a_) in sel]
+                cols = pm._process_yidx(var, None)
+                cols = [int(c_) for c_ in np.atleast_1d(cols)] if cols is not None and len(np.atleast_1d(cols)) else []
+                if len(cols) != len(want):
+                    okm = False
+                    out["memplot_error"] = "query %s: %d columns for %d stored devices" % (var.name, len(cols), len(want))
+                    break
+                if not cols:
+                    continue
+                got = pm.get_values(cols)
+                names = pm.get_header(cols)
+                for j, a_ in enumerate(want):
+                    okm = okm and bool(np.array_equal(got[:, j], M[:, a_]))
+                    okm = okm and names[j] == (dae.x_name[a_] if M is X else dae.y_name[a_])
+            out["memplot_ok"] = bool(okm)
+        except Exception as ex:
+            out["memplot_ok"] = False
+            out["memplot_error"] = "%s: %s" % (type(ex).__name__, str(ex)[:200])
     # --- replay from the exported csv -----------------------------------------------------
     if sc.get("replay") and out["files_exist"] and len(rows) > 1 and os.path.isfile(os.path.join(d, "export.csv")):
         try:
